@@ -729,7 +729,15 @@ def gen_c03_spec(rng: random.Random, maxn: int = 40) -> Dict[str, Any]:
                 m["timeout"] = 30
                 m["beh"]["probe_loop"] = True
         msgs.append(m)
-    t_probe = (ats[-1] if ats else 0.0) + 0.5
+    if rng.random() < 0.2:
+        # an at-least-once broker delivers a frame again (byte-identical) while its first delivery is still being processed
+        cands = [i for i, m_ in enumerate(msgs) if m_.get("kind", "valid") == "valid" and m_["task"] == "t_async" and m_.get("timeout") is None
+                 and m_.get("timeout_raw") is None and m_["beh"]["out"] == "ok" and (O._dur_total(m_["beh"]) or 0) >= 0.3
+                 and "never" not in m_["beh"].get("dur", [])]
+        for i in rng.sample(cands, min(len(cands), rng.randint(1, 3))):
+            msgs.append({"dup_of": i, "at": round(msgs[i]["at"] + rng.choice([0.0, 0.01, 0.05]), 6), "kind": "valid", "task": "t_async",
+                         "ackable": msgs[i]["ackable"], "beh": msgs[i]["beh"]})
+    t_probe = (max(m_["at"] for m_ in msgs) if msgs else 0.0) + 0.5
     probe_toks = []
     for j in range((A if A and A > 0 else 2) + 2):
         tok = f"p{j}"
